@@ -1223,7 +1223,8 @@ class Problem:
         # performed, we evaluate the objective and nonlinear constraint
         # functions at the initial guess.
         if len(self._fun_filter) == 0:
-            self(self.x0)
+            with suppress(CallbackSuccess):
+                self(self.x0)
 
         # Find the best point in the filter.
         fun_filter = np.array(self._fun_filter)
